@@ -20,6 +20,7 @@ func profile() sim.Profile {
 	pf.PTerminating = 2
 	pf.PFaults = 2
 	pf.PPool = 0
+	pf.PDRA = 3
 	pf.MinCycles = 2
 	pf.MaxCycles = 4
 	return pf
